@@ -2,6 +2,7 @@
   CM.Driver.Ops — the operations of the line protocol; each runs executable definitions of CM.Model.
 -/
 import CM.Driver.Codec
+import CM.Driver.RelOps
 open Lean
 namespace CM
 
@@ -106,6 +107,7 @@ def dispatch (j : Json) : P Json := do
   match op with
   | "vm" => opVm j
   | "stack" => opStack j
+  | "rel" => opRel j
   | "ping" => pure (Json.mkObj [("pong", .bool true)])
   | _ => throw s!"unknown op {op}"
 
